@@ -2883,6 +2883,8 @@ class Env(cabc.MutableMapping):
             val = self.get_default(key)
             if is_callable_default(val):
                 val = self._d[key] = val(self)
+                # now explicitly set: children receive it from here on
+                self._detyped = None
         else:
             e = "Unknown environment variable: ${}"
             raise KeyError(e.format(key))
